@@ -66,15 +66,16 @@ JudgeSplit(e) ==
     IF ~LineInDomain(e.toks) THEN {"OutsideDomain"}
     ELSE IF ChunkActsLikeLine([neg |-> AsSet(e.neg), pos |-> AsSet(e.pos)], e.toks) THEN {} ELSE {"Split_meaning"}
 
-(* {op:"domain", cfg:{nodes:[{use,pkguse,pkgforce,pkgmask,force:{neg,pos},mask:{neg,pos}}], conf, arch, user:[{sc,toks}]},
+(* {op:"domain", cfg:{nodes:[{parents,use,pkguse,pkgforce,pkgmask,force:{neg,pos},mask:{neg,pos}}], conf, arch, user:[{sc,toks}]},
     obs:[{pkg, pre, enabled, forced, masked}]} : a real domain over an on-disk profile stack;
    obs = domain.get_package_use_unconfigured(pkg with IUSE defaults pre, for_metadata=False)        *)
 NP(c) == [neg |-> AsSet(c.neg), pos |-> AsSet(c.pos)]
 CfgOf(c) == [nodes |-> [k \in DOMAIN c.nodes |->
-                          [use |-> c.nodes[k].use, pkguse |-> Es(c.nodes[k].pkguse), pkgforce |-> Es(c.nodes[k].pkgforce),
+                          [parents |-> c.nodes[k].parents, use |-> c.nodes[k].use, pkguse |-> Es(c.nodes[k].pkguse), pkgforce |-> Es(c.nodes[k].pkgforce),
                            pkgmask |-> Es(c.nodes[k].pkgmask), force |-> NP(c.nodes[k].force), mask |-> NP(c.nodes[k].mask)]],
              conf |-> c.conf, arch |-> c.arch, user |-> c.user]
 CfgInDomain(cfg) ==
+    /\ WellStacked(cfg.nodes)
     /\ \A k \in DOMAIN cfg.user : LineInDomain(cfg.user[k].toks)
     /\ \A k \in DOMAIN cfg.nodes : LET n == cfg.nodes[k] IN
           /\ n.force.neg \cap n.force.pos = {} /\ n.mask.neg \cap n.mask.pos = {}
